@@ -136,6 +136,7 @@ class PartialV(Val):
     func: object
     args: list
     kwargs: dict
+    vectorized: bool = False  # np.vectorize(func): applied per element
 
 
 @dataclass
